@@ -117,6 +117,9 @@ def _(): sub1('sm3_mb/sm3_ctx_avx2.c',"                                memcpy_va
 @m('C05-a4','C05','mh_sha256 tail: a residue that leaves exactly room for the length field is padded with two blocks','streams whose length is 1015 mod 1024 get an extra all-zero block hashed before the length block')
 def _(): sub1('mh_sha256/mh_sha256_finalize_base.c',"if (partial_buffer_len > (ISAL_MH_SHA256_BLOCK_SIZE - 8)) {","if (partial_buffer_len >= (ISAL_MH_SHA256_BLOCK_SIZE - 8)) {")
 
+@m('C08-a3','C08','CBC decrypt by8 (sse): the last block of a message that is exactly 1..7 blocks long is never stored','for lengths of 16..112 bytes the final 16 output bytes keep whatever the caller\'s buffer held')
+def _(): sub1('intel-ipsec-mb/lib/include/aes_cbc_dec_by8_sse.inc',"        ;; short message - just store\n        movdqu\t        [%%p_out  + (i * 16)], CONCAT(xdata,i)\n","        ;; short message - just store\n")
+
 out='/verif/seeded'
 only=set(sys.argv[1:])
 import json
